@@ -54,34 +54,63 @@ SOLUTIONS = ("exp", "sinpoly", "lorentz")
 COEFFS = ("const", "callable", "mixed")
 
 
+HALF, PM1 = (0.15, 2.0), (-0.6, 0.55)
+# name -> (class name or None, constructor parameters, wrapped in InverseRTransform?, interval in the ORIGINAL variable,
+#          thorough-only?)
+SPEC = {
+    "none": (None, {}, False, HALF, False),
+    "identity": ("IdentityRTransform", {}, False, HALF, False),
+    "inv-becke": ("BeckeRTransform", {"rmin": 0.0, "R": 1.3}, True, HALF, False),
+    "inv-knowles-k2": ("KnowlesRTransform", {"rmin": 0.0, "R": 1.7, "k": 2}, True, HALF, False),
+    "inv-knowles-k3": ("KnowlesRTransform", {"rmin": 0.0, "R": 1.7, "k": 3}, True, HALF, False),
+    "inv-handy-m2": ("HandyRTransform", {"rmin": 0.0, "R": 1.1, "m": 2}, True, HALF, False),
+    "inv-handymod-m3": ("HandyModRTransform", {"rmin": 0.0, "rmax": 12.0, "m": 3}, True, HALF, False),
+    "inv-multiexp": ("MultiExpRTransform", {"rmin": 0.0, "R": 1.5}, True, HALF, False),
+    "inv-linearfinite": ("LinearFiniteRTransform", {"rmin": 0.0, "rmax": 3.0}, True, HALF, False),
+    "power-b5": ("PowerRTransform", {"rmin": 0.2, "rmax": 9.0, "b": 5.0}, False, HALF, False),
+    "exp-b5": ("ExpRTransform", {"rmin": 0.2, "rmax": 9.0, "b": 5.0}, False, HALF, False),
+    "lininf-b5": ("LinearInfiniteRTransform", {"rmin": 0.1, "rmax": 7.0, "b": 5.0}, False, HALF, False),
+    "none-pm1": (None, {}, False, PM1, False),
+    "becke": ("BeckeRTransform", {"rmin": 0.1, "R": 1.2}, False, PM1, False),
+    "linearfinite": ("LinearFiniteRTransform", {"rmin": 0.5, "rmax": 4.0}, False, PM1, False),
+    "knowles-k3": ("KnowlesRTransform", {"rmin": 0.0, "R": 1.4, "k": 3}, False, PM1, False),
+    "handy-m2": ("HandyRTransform", {"rmin": 0.1, "R": 0.9, "m": 2}, False, PM1, False),
+    "handymod-m3": ("HandyModRTransform", {"rmin": 0.0, "rmax": 11.0, "m": 3}, False, PM1, False),
+    "multiexp": ("MultiExpRTransform", {"rmin": 0.0, "R": 1.3}, False, PM1, False),
+    # thorough tier: more integer and non-integer k / m (terms of the hand-derived derivative formulas that
+    # vanish at k = m = 2 must show)
+    "inv-knowles-k1": ("KnowlesRTransform", {"rmin": 0.0, "R": 1.7, "k": 1}, True, HALF, True),
+    "inv-knowles-k2.5": ("KnowlesRTransform", {"rmin": 0.0, "R": 1.7, "k": 2.5}, True, HALF, True),
+    "inv-knowles-k4": ("KnowlesRTransform", {"rmin": 0.0, "R": 2.2, "k": 4}, True, HALF, True),
+    "inv-handy-m1": ("HandyRTransform", {"rmin": 0.0, "R": 1.1, "m": 1}, True, HALF, True),
+    "inv-handy-m1.5": ("HandyRTransform", {"rmin": 0.0, "R": 1.1, "m": 1.5}, True, HALF, True),
+    "inv-handy-m3": ("HandyRTransform", {"rmin": 0.0, "R": 1.1, "m": 3}, True, HALF, True),
+    "inv-handymod-m1": ("HandyModRTransform", {"rmin": 0.0, "rmax": 6.0, "m": 1}, True, HALF, True),
+    "inv-handymod-m2": ("HandyModRTransform", {"rmin": 0.0, "rmax": 9.0, "m": 2}, True, HALF, True),
+    "inv-handymod-m4": ("HandyModRTransform", {"rmin": 0.0, "rmax": 25.0, "m": 4}, True, HALF, True),
+    "knowles-k2.5": ("KnowlesRTransform", {"rmin": 0.1, "R": 1.4, "k": 2.5}, False, PM1, True),
+    "knowles-k4": ("KnowlesRTransform", {"rmin": 0.0, "R": 1.4, "k": 4}, False, PM1, True),
+    "handy-m1.5": ("HandyRTransform", {"rmin": 0.1, "R": 0.9, "m": 1.5}, False, PM1, True),
+    "handy-m3": ("HandyRTransform", {"rmin": 0.1, "R": 0.9, "m": 3}, False, PM1, True),
+    "handymod-m2": ("HandyModRTransform", {"rmin": 0.0, "rmax": 8.0, "m": 2}, False, PM1, True),
+    "handymod-m4": ("HandyModRTransform", {"rmin": 0.1, "rmax": 24.0, "m": 4}, False, PM1, True),
+    "becke-rmin0": ("BeckeRTransform", {"rmin": 0.0, "R": 5.0}, False, PM1, True),
+}
+
+
 def transforms():
     """name -> (constructor thunk, interval (x0, x1) in the ORIGINAL variable)."""
     import grid.rtransform as rt
 
-    half = (0.15, 2.0)
-    pm1 = (-0.6, 0.55)
-    inv = rt.InverseRTransform
-    return {
-        "none": (lambda: None, half),
-        "identity": (lambda: rt.IdentityRTransform(), half),
-        "inv-becke": (lambda: inv(rt.BeckeRTransform(0.0, 1.3)), half),
-        "inv-knowles-k2": (lambda: inv(rt.KnowlesRTransform(0.0, 1.7, 2)), half),
-        "inv-knowles-k3": (lambda: inv(rt.KnowlesRTransform(0.0, 1.7, 3)), half),
-        "inv-handy-m2": (lambda: inv(rt.HandyRTransform(0.0, 1.1, 2)), half),
-        "inv-handymod-m3": (lambda: inv(rt.HandyModRTransform(0.0, 12.0, 3)), half),
-        "inv-multiexp": (lambda: inv(rt.MultiExpRTransform(0.0, 1.5)), half),
-        "inv-linearfinite": (lambda: inv(rt.LinearFiniteRTransform(0.0, 3.0)), half),
-        "power-b5": (lambda: rt.PowerRTransform(0.2, 9.0, b=5.0), half),
-        "exp-b5": (lambda: rt.ExpRTransform(0.2, 9.0, b=5.0), half),
-        "lininf-b5": (lambda: rt.LinearInfiniteRTransform(0.1, 7.0, b=5.0), half),
-        "none-pm1": (lambda: None, pm1),
-        "becke": (lambda: rt.BeckeRTransform(0.1, 1.2), pm1),
-        "linearfinite": (lambda: rt.LinearFiniteRTransform(0.5, 4.0), pm1),
-        "knowles-k3": (lambda: rt.KnowlesRTransform(0.0, 1.4, 3), pm1),
-        "handy-m2": (lambda: rt.HandyRTransform(0.1, 0.9, 2), pm1),
-        "handymod-m3": (lambda: rt.HandyModRTransform(0.0, 11.0, 3), pm1),
-        "multiexp": (lambda: rt.MultiExpRTransform(0.0, 1.3), pm1),
-    }
+    out = {}
+    for name, (cls, p, inv, interval, _) in SPEC.items():
+        def make(cls=cls, p=p, inv=inv):
+            if cls is None:
+                return None
+            tf = getattr(rt, cls)(**p)
+            return rt.InverseRTransform(tf) if inv else tf
+        out[name] = (make, interval)
+    return out
 
 
 DECREASING = ("inv-multiexp", "multiexp")
@@ -177,9 +206,14 @@ def _solve_case(arg):
     if got.shape[0] < rows_expected or got.shape[1] != len(xs):
         res.violation(f"{tag}:shape", f"{case}: returned shape {got.shape}, expected ({rows_expected}, {len(xs)})", case)
         return res.as_dict()
+    # derivatives with respect to x are assembled from the solver's derivatives with respect to r: the
+    # solver's (absolute) error in d^k y / dr^k is multiplied by about |dr/dx|^k
+    amp = np.ones(len(xs))
+    if with_tf and rows_expected > 1:
+        amp = np.array([max(1.0, abs(_dr_dx(tname, float(xv)))) for xv in xs])
     for k in range(rows_expected):
         err = np.abs(got[k] - exact[k])
-        lim = tol[k] if np.ndim(tol) == 2 else tol
+        lim = (tol[k] if np.ndim(tol) == 2 else tol) * amp**k
         if np.any(_gt(err, lim)):
             i = int(np.argmax(err / lim))
             kind = "solution" if k == 0 else f"derivative-{k}"
@@ -221,24 +255,7 @@ def _dr_dx(tname, xv):
 
     from vf.oracles import rtf
 
-    spec = {
-        "identity": ("IdentityRTransform", {}, False), "inv-becke": ("BeckeRTransform", {"rmin": 0.0, "R": 1.3}, True),
-        "inv-knowles-k2": ("KnowlesRTransform", {"rmin": 0.0, "R": 1.7, "k": 2}, True),
-        "inv-knowles-k3": ("KnowlesRTransform", {"rmin": 0.0, "R": 1.7, "k": 3}, True),
-        "inv-handy-m2": ("HandyRTransform", {"rmin": 0.0, "R": 1.1, "m": 2}, True),
-        "inv-handymod-m3": ("HandyModRTransform", {"rmin": 0.0, "rmax": 12.0, "m": 3}, True),
-        "inv-multiexp": ("MultiExpRTransform", {"rmin": 0.0, "R": 1.5}, True),
-        "inv-linearfinite": ("LinearFiniteRTransform", {"rmin": 0.0, "rmax": 3.0}, True),
-        "power-b5": ("PowerRTransform", {"rmin": 0.2, "rmax": 9.0, "b": 5.0}, False),
-        "exp-b5": ("ExpRTransform", {"rmin": 0.2, "rmax": 9.0, "b": 5.0}, False),
-        "lininf-b5": ("LinearInfiniteRTransform", {"rmin": 0.1, "rmax": 7.0, "b": 5.0}, False),
-        "becke": ("BeckeRTransform", {"rmin": 0.1, "R": 1.2}, False), "linearfinite": ("LinearFiniteRTransform", {"rmin": 0.5, "rmax": 4.0}, False),
-        "knowles-k3": ("KnowlesRTransform", {"rmin": 0.0, "R": 1.4, "k": 3}, False),
-        "handy-m2": ("HandyRTransform", {"rmin": 0.1, "R": 0.9, "m": 2}, False),
-        "handymod-m3": ("HandyModRTransform", {"rmin": 0.0, "rmax": 11.0, "m": 3}, False),
-        "multiexp": ("MultiExpRTransform", {"rmin": 0.0, "R": 1.3}, False),
-    }[tname]
-    name, p, inverse = spec
+    name, p, inverse = SPEC[tname][:3]
     mp.mp.dps = 30
     f = rtf.forward(name, p)
     if not inverse:
@@ -259,7 +276,7 @@ def _dr_dx(tname, xv):
 
 
 def jobs_for(ctx):
-    tnames = list(transforms())
+    tnames = [t for t, v in SPEC.items() if ctx.thorough or not v[4]]
     out = []
     for order, cname, sname in itertools.product((1, 2, 3), COEFFS, SOLUTIONS):
         base = (cname, sname) == ("const", "exp")
